@@ -519,7 +519,35 @@ def _b_divmod(it, args, kwargs, node):
     return (ops.binop(it, "FloorDiv", a, b, node), ops.binop(it, "Mod", a, b, node))
 
 
+def _b_map(it, args, kwargs, node):
+    from . import ops
+    f = args[0]
+    seqs = [ops.iterate(it, a, node) for a in args[1:]]
+    return [it.call(f, list(xs), {}, node) for xs in zip(*seqs)]
+
+
+def _b_filter(it, args, kwargs, node):
+    from . import ops
+    f, seq = args
+    out = []
+    for x in ops.iterate(it, seq, node):
+        v = x if f is None else it.call(f, [x], {}, node)
+        if it.truth(v, node):
+            out.append(x)
+    return out
+
+
+def _dict_fromkeys(it, args, kwargs, node):
+    from . import ops
+    keys = ops.iterate(it, args[0], node)
+    val = args[1] if len(args) > 1 else None
+    if any(is_abstract(k) for k in keys):
+        raise _CE("dict.fromkeys with abstract keys")
+    return {k: val for k in keys}
+
+
 _BUILTINS = {
+    "map": _b_map, "filter": _b_filter,
     "len": _b_len, "int": _b_int, "str": _b_str, "sum": _b_sum, "zip": _b_zip, "enumerate": _b_enumerate,
     "reversed": _b_reversed, "range": _b_range, "sorted": _b_sorted, "all": _b_all, "any": _b_any,
     "bool": _b_bool, "tuple": _b_tuple, "list": _b_list, "dict": _b_dict, "frozenset": _b_frozenset,
@@ -868,6 +896,8 @@ def _s_maketrans(it, recv, args, kwargs, node):
 def _s_translate(it, recv, args, kwargs, node):
     v = _sv(recv)
     t = args[0]
+    if isinstance(t, dict) and all(isinstance(k, int) for k in t) and all(x is None or isinstance(x, (str, int)) for x in t.values()):
+        t = ("transtable", t)
     if not (isinstance(t, tuple) and t and t[0] == "transtable"):
         raise _CE("str.translate with an unmodelled table")
     table = t[1]
@@ -1276,6 +1306,17 @@ def _deepcopy(it, args, kwargs, node):
 def _reduce_copy(it, x, node, deep):
     """object.__reduce_ex__(4) protocol: cls.__new__(cls, *__getnewargs__()), then the instance dict."""
     from .values import ClsRef
+    for nm in ("__reduce_ex__", "__reduce__"):
+        r = x.cls.lookup(it.program, nm)
+        if r is not None and r[1] == "method":
+            red = it.call_func(r[2], [x] + ([4] if nm == "__reduce_ex__" else []), {}, node)
+            if not isinstance(red, tuple) or len(red) < 2:
+                raise _CE(f"{nm} returned {red!r}")
+            obj = it.call(red[0], list(red[1]), {}, node)
+            if len(red) > 2 and isinstance(red[2], dict) and isinstance(obj, Obj):
+                for k, v in red[2].items():
+                    obj.attrs[k] = _deepcopy(it, [v, None], {}, node) if deep else v
+            return obj
     ga = it.getattr(x, "__getnewargs__", node) if (x.cls.lookup(it.program, "__getnewargs__") or x.strval is not None) else None
     newargs = list(it.call(ga, [], {}, node)) if ga is not None else []
     new = it.getattr(ClsRef(x.cls), "__new__", node) if x.cls.lookup(it.program, "__new__") else None
@@ -1356,6 +1397,7 @@ _EXT = {
     "pycountry.countries.get": _pycountry_get, "collections.defaultdict": _defaultdict,
     "copy.deepcopy": _deepcopy, "copy.copy": _copy,
     "builtins.str.maketrans": lambda it, a, k, n: _s_maketrans(it, None, a, k, n),
+    "builtins.dict.fromkeys": _dict_fromkeys,
     "importlib.resources.files": _files, "importlib_resources.files": _files, "json.load": _json_load,
 }
 
@@ -1380,7 +1422,9 @@ def _rand_choice(it, recv, args, kwargs, node):
         it.may_raise("IndexError", node, "Cannot choose from an empty sequence", certain=True)
     reps = getattr(it, "choice_reps", None)
     cands = reps(seq) if reps else (seq if len(seq) <= 6 else [seq[0], seq[len(seq) // 2], seq[-1]])
-    return cands[it.choose(len(cands), "random.choice")]
+    picked = cands[it.choose(len(cands), "random.choice")]
+    it.event("random_pick", picked=picked, node=node)
+    return picked
 
 
 def _rstr_new(it, args, kwargs, node):
